@@ -16,6 +16,7 @@ type Val struct {
 	Tup  []Val      // tuple components (multi-result calls, Next, comma-ok)
 	Fn   *FnVal     // engine-level function value (closure / function constant)
 	Addr string     // spec evaluation: struct value located at this address (lazy)
+	Guard string    // address of the mutex guarding the field this value was loaded from
 }
 
 // Ptr describes pointers the engine tracks outside SMT.
